@@ -189,6 +189,18 @@ Definition resolve_relidx (fi : nat) (rels : list rel) : MW (list rel) :=
   mapM rels (fun r => if Nat.ltb (fst r) 1000 then ret r
                       else c <- of_opt (nth_error (f_ids f) (fst r - 1000)) EIndex ;; ret (c, snd r)).
 
+(** UnsafeFilter.Query validates its relation arguments as the generic filters do (repair: a relation given for a
+    component that is not a relation component REQUIRED BY THE FILTER is rejected when the query is created,
+    before a lock bit is taken; it used to be accepted and then listed entities that do not have that relation -
+    all entities of relation-free archetypes, or, for a plain component in a later position, everything). *)
+Definition check_unsafe_rels (fi : nat) (rels : list rel) : MW unit :=
+  if is_nil rels then ret tt else
+  f <- getF fi ;;
+  whenM (f_unsafe f)
+    (forM_ rels (fun r => s <- get ;;
+                          guard (is_rel_comp s (fst r)) ENotRelation ;;;
+                          guard (mk_get (f_mask f) (fst r)) ERelNotInMask)).
+
 Definition issue (e : ent) : MW unit := modify (fun s => s <| w_issued ::= fun l => l ++ [e] |>).
 
 (** Entities reported by batch callbacks (log entries tagged 101). *)
@@ -321,6 +333,7 @@ Definition step_op (debug : bool) (o : op) : MW (list Z) :=
   | OQueryAll f hrels =>
       rels <- resolveR hrels ;;
       rels <- resolve_relidx f rels ;;
+      check_unsafe_rels f rels ;;;
       qi <- query_open f rels ;;
       cnt <- query_count qi ;;
       es <- (fix go (fuel : nat) (acc : list ent) : MW (list ent) :=
@@ -336,6 +349,7 @@ Definition step_op (debug : bool) (o : op) : MW (list Z) :=
   | OQueryOpen f hrels =>
       rels <- resolveR hrels ;;
       rels <- resolve_relidx f rels ;;
+      check_unsafe_rels f rels ;;;
       qi <- query_open f rels ;; ret [Zn qi]
   | OQueryNext q => b <- query_next debug q ;; ret [Zb b]
   | OQueryClose q => query_close q ;;; ret []
